@@ -4,12 +4,15 @@ import numpy as np
 from vlib import zlit, zlist, optlit, listlit
 
 PROP = 'C14'
-REQUIRES = ['Buffer.Model', 'Buffer.Spec']
+REQUIRES = ['Buffer.Model', 'Buffer.Spec', 'Buffer.ProofsXE']
 RULE = ('histories of mutations (append n in {1,2,cap,cap+2}; invalidate at {lb-1, lb, mid, ub-1, ub, ub+1, 0}; resize to '
         '{cap-1, cap+1, 2cap+1}) exhaustive up to length 3 (quick: cap 2,3; thorough: length 4, cap 1..4) followed by a boundary-centred read sweep '
         '(plain, filled incl. entirely-outside requests, latest, None bounds, explicit 0 bounds, seconds- and sample-based twins, keyword / default '
         'forms of every optional argument, direct time_to_samples / time_to_index / samples_to_index queries, a wrongly shaped append that must be refused); '
         'then seeded random histories up to length 40 (cap up to 12); '
+        'then histories with zero-length chunks (1-D array([]) / 2-D (ch, 0); float64, int64, float32, strided, Fortran, read-only) as the first '
+        'call, between an invalidate / resize and a read, and at random places: the model receives Append [] and the case also evaluates '
+        'C14_refines_spec_e and C14_empty_append_is_skip on that history; '
         'constructor: fs in {1, 1000, 195312.5} as float / int / NumPy scalar, size on and off the sample grid (ceil), fill_value -1 / 0 / default NaN, '
         'dtype default / float32 / int64 / int32, n_channels None / 1 / 2 / 3; chunks float64 / int64 / float32 / strided view / read-only / Fortran; '
         'times on and off the sample grid (k+f)/fs, f in {0, .25, .5, .75, -.25, -.5}; sample arguments as Python and NumPy integers; read fill values incl. 0; '
@@ -21,7 +24,7 @@ TRUSTED = ['harness/C14.py (history generator; conversion of sample positions to
            'NumPy basic slicing / overlapping slice assignment / np.pad as modelled in coq/Common/PySlice.v and coq/Buffer/Model.v']
 ASSUMPTIONS = ['times are passed as (k+f)/fs; seconds->samples is round(t*fs), evaluated by the harness with the very float expression of the code '
                '(Common/FloatGrid theorem for the on-grid round trip)',
-               'appends have n >= 1, invalidation positions are >= 0, resize targets >= 1 sample',
+               'appends have n >= 0 (a zero-length chunk is a no-op since /repo 0eafd08), invalidation positions are >= 0, resize targets >= 1 sample',
                'reads with lb > ub are compared model-vs-code but not judged by the property',
                'an integer-dtype buffer is given an integer fill value (the NaN default cannot be stored in it)']
 FILL = -1
@@ -347,7 +350,9 @@ def term(case, res):
     idx = listlit([f'({zlit(i)}, {zlit(j)})' for i, j in res['idx']])
     # check_case = model agrees on every channel && the refinement statement of Props/C14.v evaluated on this very history
     # (a test of the theorem, not its proof) && the index translations agree with the model and with the abstract spec
-    t = f"check_case {zlit(res['cap'])} {zlit(_mfill(case))} {ops} {gots} {idx}"
+    # a history with a zero-length append also evaluates C14_refines_spec_e / C14_empty_append_is_skip (Buffer/ProofsXE.v)
+    chk = 'check_case_e' if any(o[0] == 'A' and not o[1] for o in res['eff']) else 'check_case'
+    t = f"{chk} {zlit(res['cap'])} {zlit(_mfill(case))} {ops} {gots} {idx}"
     if res['notes']:
         t += ' && false'
     return t
@@ -590,6 +595,43 @@ def cases(tier, rng):
             sp.apply(o)
         ops += _read_sweep(sp, rng, full=(sp.n - sp.lo) <= 5, final=True)
         yield dict(_config(rng), cap=cap, ops=ops)
+    # zero-length chunks (drawn last: the cases above are the same as before)
+    yield from _empty_append_cases(48 if quick else 600, rng)
+
+
+EMPTY_KINDS = [None, None, 'int64', 'float32', 'ro', 'view', 'fortran']
+
+
+def _empty_append_cases(n_cases, rng):
+    """histories with zero-length chunks: as the very first call, between an invalidate / resize and a read, at random places"""
+    def empty():
+        return ['A', 0, {'dk': rng.choice(EMPTY_KINDS)}]
+    for j in range(n_cases):
+        cap = rng.randint(1, 6)
+        sp = _Spec(cap)
+        ops = []
+        if j % 3 == 0:
+            ops.append(empty())                       # before anything was appended
+            if j % 6 == 0:
+                ops += rng.sample(_read_sweep(sp, rng), 3)
+        for _ in range(rng.randint(2, 8)):
+            o = rng.choice(_mut_alphabet(sp))
+            o = _mut_variant(o, rng, 0.2)
+            ops.append(o)
+            sp.apply(o)
+            if o[0] in 'IR' and rng.random() < 0.7:
+                ops.append(empty())                   # between an invalidate / resize and a read
+                ops += rng.sample(_read_sweep(sp, rng), 2)
+            elif rng.random() < 0.25:
+                ops.append(empty())
+                if rng.random() < 0.5:
+                    ops.append(empty())               # two in a row
+        if j % 4 == 1:
+            ops.append(empty())                       # last mutation before the final sweep
+        if not any(o[0] == 'A' and o[1] == 0 for o in ops):
+            ops.insert(rng.randint(0, len(ops)), empty())
+        ops += _read_sweep(sp, rng, full=(sp.n - sp.lo) <= 4, final=True)
+        yield dict(_config(rng, fs=rng.choice([1.0, 1.0, 1000.0])), cap=cap, ops=ops)
 
 
 def key(case, res):
@@ -603,6 +645,6 @@ def distribution(cases, results):
             kk = f'{f}={c.get(f)}'
             d[kk] = d.get(kk, 0) + 1
         for o in c['ops']:
-            kk = 'op ' + o[0] + ''.join(f' {a}' for a in sorted(_flags(o)) if _flags(o)[a] not in (0, None))
+            kk = 'op ' + o[0] + (' empty' if (o[0] == 'A' and o[1] == 0) else '') + ''.join(f' {a}' for a in sorted(_flags(o)) if _flags(o)[a] not in (0, None))
             d[kk] = d.get(kk, 0) + 1
     return d
